@@ -28,17 +28,60 @@ structure Options where
   spokfileGiven : Bool := false
 deriving Repr, DecidableEq, Inhabited
 
+/-- what a path is, as `os.Lstat` (the directory entry itself) and `os.Stat` (symbolic links followed) see it -/
+inductive Entry where
+  /-- no such directory entry -/
+  | absent
+  /-- a regular file -/
+  | file
+  /-- a directory -/
+  | dir
+  /-- a symbolic link behind which `os.Stat` finds a regular file -/
+  | linkFile
+  /-- a symbolic link behind which `os.Stat` finds a directory -/
+  | linkDir
+  /-- a symbolic link whose target does not exist (`os.Lstat` succeeds, `os.Stat` fails; so does a link loop) -/
+  | dangling
+deriving Repr, DecidableEq, Inhabited
+
+/-- `exists(path)` of `cli/app/app.go`: `os.Stat(path)` returns no error.  `os.Stat` FOLLOWS symbolic links: a
+    link to a file or to a directory exists, a dangling link does not. -/
+def Entry.statOk : Entry → Bool
+  | .absent | .dangling => false
+  | .file | .dir | .linkFile | .linkDir => true
+
+/-- `os.Lstat(path)` + `Mode().IsRegular()`: NOT what `exists` does (stated for comparison: this variant does not
+    see a spokfile that is reached through a symbolic link) -/
+def Entry.lstatRegular : Entry → Bool
+  | .file => true
+  | _ => false
+
+def Entry.isLink : Entry → Bool
+  | .linkFile | .linkDir | .dangling => true
+  | _ => false
+
+/-- the test of `file.Find` on a directory entry named `spokfile`: `!e.IsDir()`.  `DirEntry.IsDir` looks at the
+    entry itself, so ANY symbolic link passes, whatever is behind it. -/
+def Entry.findable : Entry → Bool
+  | .absent | .dir => false
+  | .file | .linkFile | .linkDir | .dangling => true
+
+/-- `os.ReadFile(path)` succeeds (links followed; unreadable permissions are not generated) -/
+def Entry.readable : Entry → Bool
+  | .file | .linkFile => true
+  | _ => false
+
 /-- what one invocation finds around it -/
 structure World where
-  /-- an entry called `spokfile` exists in the working directory (`exists(path)` in `initialise`) -/
-  cwdSpokfile : Bool := false
-  /-- `file.Find` (cwd upwards to `$HOME`) finds a spokfile; irrelevant with `--spokfile` -/
+  /-- what `<cwd>/spokfile` is (looked at by `exists(path)` in `initialise`) -/
+  cwdEntry : Entry := .absent
+  /-- `file.Find` (cwd upwards to `$HOME`) finds a spokfile, i.e. a `findable` entry; irrelevant with `--spokfile` -/
   found : Bool := true
   /-- the base name of the path is `spokfile` (always so for a found one) -/
   nameOk : Bool := true
-  /-- no `.env` next to it, or `godotenv.Load` accepts it -/
+  /-- nothing that `os.Stat` finds at `.env` next to it, or `godotenv.Load` accepts it (links followed) -/
   dotenvOk : Bool := true
-  /-- `os.ReadFile` succeeds -/
+  /-- `os.ReadFile` succeeds (not so when the spokfile path is a link to a directory or a dangling link) -/
   readable : Bool := true
   /-- `parser.Parse` succeeds -/
   parses : Bool := true
@@ -47,6 +90,10 @@ structure World where
   hasDefault : Bool := false
   hasClean : Bool := false
 deriving Repr, DecidableEq, Inhabited
+
+/-- `exists(<cwd>/spokfile)` in `initialise`: an entry called `spokfile` exists in the working directory, symbolic
+    links followed.  A spokfile reached through a link IS an existing spokfile. -/
+def World.cwdSpokfile (w : World) : Bool := w.cwdEntry.statOk
 
 inductive Err where
   | initExists | quietDebug | notFound | badName | dotenv | read | parse | load
@@ -107,10 +154,13 @@ def World.ok (o : Options) (w : World) : Bool :=
 
 /-! ## what spok itself writes (C19) -/
 
+/-- Targets are FILES, named by the path spok uses for them: where that path is a symbolic link the target is
+    what the link designates (every write of app.go goes through `os.WriteFile` / `os.OpenFile`, which follow
+    links; spok never replaces or removes a link itself). -/
 inductive Target where
-  | spokfile       -- the spokfile in use
-  | cwdSpokfile    -- `<cwd>/spokfile` that did not exist before
-  | cwdGitignore   -- `<cwd>/.gitignore`
+  | spokfile       -- the spokfile in use (the file the found / given path designates)
+  | cwdSpokfile    -- what `<cwd>/spokfile` designates, and that did not exist before (for a dangling link: its target)
+  | cwdGitignore   -- what `<cwd>/.gitignore` designates
   | cache          -- anything under `<spokfile dir>/.spok`
   | outputs        -- declared outputs (only `--clean`; C12 is about which)
 deriving Repr, DecidableEq
@@ -285,7 +335,9 @@ def Out.isEmpty : Out → Bool
   | .empty => true
   | _ => false
 
-/-- exit status of a whole invocation -/
+/-- exit status of a whole invocation (for `.initialise`: when both writes succeed; `os.WriteFile` through a
+    dangling link into a missing directory, or a `.gitignore` that is a directory, make it 1: the oracle's
+    little file system decides that) -/
 def exitOf (o : Options) (a : Action) (ran : Option (List Result)) : Nat :=
   match a with
   | .error _ => 1
